@@ -4,7 +4,8 @@ use crate::ast::*;
 use crate::case::*;
 use crate::dispatch;
 use crate::fam::Codec;
-use crate::fe::Front;
+use crate::fe::*;
+use crate::sim::*;
 use crate::gen;
 use crate::refcodec;
 use crate::rng::Rng;
@@ -38,6 +39,17 @@ pub fn gen(rng: &mut Rng, tier: Tier, idx: u64) -> Case {
     let mut a = gen::gen_packet(rng, &sw);
     maybe_retarget(rng, &sw, &mut a, 200);
     gen::maybe_retarget_props(rng, sw.fam, &mut a, 40);
+    if rng.chance(1, 3) {
+        // the same packet emitted by the async encoder into a sink that delays, shortens and
+        // buffers (flush not ready): what reaches the wire must still be that one packet
+        let len = refcodec::ref_body_len(&a, sw.fam) + 5;
+        let pp = *rng.pick(&[0u64, 200, 1000]);
+        let (ws, tail) = gen_write_script(rng, len, pp, 0);
+        c.write_script = ws;
+        c.write_tail = tail;
+        c.writer_style = gen_writer_style(rng);
+        c.n = vec![1];
+    }
     c.packets = vec![a];
     c
 }
@@ -68,6 +80,36 @@ fn run_g<C: Codec>(c: &Case, _trace: bool) -> RunOut {
         }
     };
     out.mix(&enc);
+    if c.n.first() == Some(&1) {
+        let core = Core::new(_trace);
+        let mut w = SimWriter::new(&core, c.write_script.clone());
+        w.tail = c.write_tail;
+        let cap = (4 * (enc.len() + c.write_script.len()) + 64) as u32;
+        let r = guarded(std::panic::AssertUnwindSafe(|| {
+            let mut ex = Exec::new(&core, cap);
+            let mut fut = Box::pin(C::encode_async(&p, &mut w));
+            ex.run(fut.as_mut()).map(|r| r.is_ok())
+        }));
+        out.absorb_core(&core, _trace);
+        out.evals += 1;
+        out.probe("async-emission");
+        if let Ok(Ok(true)) = r {
+            let wire = &w.accepted;
+            let one_frame = matches!(spec::ref_frame(wire), Ok((h, rl)) if h + rl == wire.len());
+            let same = one_frame && matches!(refcodec::ref_decode(c.fam, wire), Ok(got) if got.canon() == a.canon());
+            if !same {
+                out.violate(
+                    sig("async-emission"),
+                    format!(
+                        "what encode_async put on the wire ({} bytes) is not exactly one well-formed packet carrying the original field values (encode() gives {} bytes)\n  packet: {a:?}\n  wire starts: {:?}",
+                        wire.len(),
+                        enc.len(),
+                        Bs(wire[..wire.len().min(48)].to_vec())
+                    ),
+                );
+            }
+        }
+    }
     match refcodec::ref_decode(c.fam, &enc) {
         Ok(got) => {
             if got.canon() != a.canon() {
